@@ -343,6 +343,12 @@ impl Check for C03Check {
     fn level(&self) -> &'static str {
         "fault_enumeration"
     }
+    fn address_space_limit_mib(&self) -> Option<u64> {
+        // decoders of <= 64 KiB datagrams: an allocation that does not fit in 4 GiB of address
+        // space derives from a wire-controlled field; it must fail here as it would on a
+        // machine without over-commit, not pass silently
+        Some(4096)
+    }
     fn rule(&self) -> String {
         "scenario = one chunk sent by the PWB model (payload length, fill, all header fields from the run seed; lengths 1..=64 exhaustively, then boundary lengths up to 65535, then seeded) plus a family of link faults applied one delivery at a time: every single-bit flip; every burst length 2..=32 at every visited bit offset (large chunks are split into parts, each a scenario); seeded (or, for the 28-byte chunk in thorough, all) pairs and triples of flips biased to length field / CRC words / header+payload straddles; truncation/extension by multiples of 4; CRC-valid sender deviations (unknown device, chip 4..255, flags 2..255, declared length +-1..4 with/without zero padding, non-zero padding). Oracles: I1 fault-free chunk accepted, accessors re-encode to the bytes; I2 1-3 flips or one burst <=32 => rejected; I3 accepted => reference well-formedness predicate (own CRC-32C). A scenario is non-trivial if it delivered the base chunk and fired at least one fault; distinct = distinct event-log hashes (chunk bytes + per-delivery accept/reject trace).".into()
     }
